@@ -150,7 +150,7 @@ func propC19(c *ctx) error {
 				// further definition nested inside it (pre-order: the outer name first)
 				switch r.n(6) {
 				case 0:
-					sb.WriteString(`<div :define="` + fn + `"></div>`)
+					sb.WriteString(`<div :define="` + fn + `">` + r.pick([]string{"", " ", "\n", "\n  \n"}) + `</div>`)
 				case 1:
 					sb.WriteString(`<t:block :define="` + fn + `"/>`)
 				case 2:
